@@ -366,6 +366,116 @@ def show_trace(tr):
 
 
 # ----------------------------------------------------------------------------------------------------------------------------------
+# clauses evaluated on the implementation from a JSON input (used by the streams and by replay)
+# ----------------------------------------------------------------------------------------------------------------------------------
+def fr(v):
+    return float(Fraction(v))
+
+
+def clause_is_common(inp):
+    """kind 'check', lattice / identical families, no dtg, no resample: True from is_common_time => equal (windowed) arrays"""
+    from qats import TsDB, TimeSeries
+    fails = []
+    if inp.get("family") not in ("ident", "lattice") or inp.get("resample") is not None or any(d is not None for d in inp["dtg"]):
+        return None, fails
+    times = [np.array([fr(v) for v in t]) for t in inp["times"]]
+    twin = None if inp["twin"] is None else (fr(inp["twin"][0]), fr(inp["twin"][1]))
+    db = TsDB()
+    for i, tf in enumerate(times):
+        db.add(TimeSeries("s%d" % i, tf, tf * 0.0))
+    ic = db.is_common_time(twin=twin)
+    if ic:
+        w = times if twin is None else [a[(a >= twin[0]) & (a <= twin[1])] for a in times]
+        if not all(a.shape == w[0].shape and np.array_equal(a, w[0]) for a in w):
+            fails.append(("is_common_time(twin) is True only if the windowed time arrays of lattice series are equal",
+                          "equal windowed arrays", [a.tolist() for a in w]))
+    return bool(ic), fails
+
+
+def clause_cct(inp, ct=None):
+    """kind 'cct': the common time array lies inside [latest start, earliest end]"""
+    from qats import TsDB, TimeSeries
+    fails = []
+    times = [np.array([fr(v) for v in t]) for t in inp["times"]]
+    if ct is None:
+        db = TsDB()
+        for i, tf in enumerate(times):
+            db.add(TimeSeries("s%d" % i, tf, tf * 0.0))
+        try:
+            ct = np.asarray(db.create_common_time(twin=None if inp["twin"] is None else (fr(inp["twin"][0]), fr(inp["twin"][1]))), dtype=float)
+        except Exception:
+            return fails
+    if len(ct) and inp.get("family") != "ident":
+        cs, ce = max(t[0] for t in times), min(t[-1] for t in times)
+        if ct[0] < cs - 1e-12 or ct[-1] > ce + 1e-12:
+            fails.append(("create_common_time stays inside [latest start, earliest end]", [float(cs), float(ce)], [float(ct[0]), float(ct[-1])]))
+    return fails
+
+
+def clause_names(inp):
+    """kind 'names': distinct, none lost"""
+    from qats import TsDB
+    fails = []
+    try:
+        r = TsDB()._make_export_friendly_names(OrderedDict((k, None) for k in inp["keys"]), keep_basename=inp["basename"])
+        got = list(r.keys())
+    except Exception as e:
+        return None, "err " + err_kind(e), fails
+    if len(got) != len(inp["keys"]) or len(set(got)) != len(got):
+        fails.append(("export-friendly names are distinct and as many as the selected series", len(inp["keys"]), got))
+    return got, "ok " + hxlist(got), fails
+
+
+def impl_trace(inp, d):
+    """kind 'trace': run TsDB.export with the steps observed (writers replaced by recorders, tag stages)"""
+    from qats import TsDB, TimeSeries
+    flags = inp["flags"]
+    db = TsDB()
+    for k, dg, t, x in zip(inp["keys"], inp["dtg"], inp["times"], inp["x"]):
+        ts = TimeSeries(os.path.basename(k), np.array([fr(v) for v in t]), np.array([fr(v) for v in x]), dtg_ref=dtg_of(dg))
+        db.register[k] = ts
+        db.register_parent[k] = None
+        db.register_indices[k] = None
+        db.register_keys.append(k)
+    kw = {}
+    if inp["twin"] is not None:
+        kw["twin"] = (fr(inp["twin"][0]), fr(inp["twin"][1]))
+    res = inp["resample"]
+    if res is not None:
+        kw["resample"] = fr(res[1]) if res[0] == "step" else np.array([fr(v) for v in res[1]])
+    if inp["stages"][0]:
+        kw["taperfrac"] = 0.1
+    if inp["stages"][1]:
+        kw["filterargs"] = ("lp", 0.01)
+    if inp["stages"][2]:
+        kw["window_len"] = 3
+    os.makedirs(d)
+    sub = os.path.join(d, "new") if flags["mkdir"] else d
+    target = os.path.join(sub, "out." + ("csv" if flags["ext"] == "other" else flags["ext"]))
+    if flags["exists"]:
+        open(target, "w").write("sentinel")
+    with Tags(), Tracer() as trc:
+        try:
+            quiet(db.export, target, exist_ok=flags["existok"], basename=flags["base"], force_common_time=flags["force"], **kw)
+        except Exception as e:
+            trc.trace.append("raise:" + err_kind(e))
+        return list(trc.trace)
+
+
+def clause_trace(itrace):
+    """nothing touches the target before a raise; what is handed to a writer has one time array"""
+    fails = []
+    last = itrace[-1] if itrace else ""
+    if isinstance(last, str) and last.startswith("raise") and \
+            any(isinstance(t, tuple) or (isinstance(t, str) and t.startswith("open")) for t in itrace):
+        fails.append(("export raises before the target is opened", "no open/write before raise", show_trace(itrace)))
+    wr = [t for t in itrace if isinstance(t, tuple)]
+    if wr and not all(len(w[2]) == len(wr[0][2]) and np.allclose(w[2], wr[0][2], rtol=1e-9, atol=1e-12) for w in wr):
+        fails.append(("series handed to a writer share one time array", wr[0][2].tolist(), [w[2].tolist() for w in wr]))
+    return fails
+
+
+# ----------------------------------------------------------------------------------------------------------------------------------
 # correspondence streams
 # ----------------------------------------------------------------------------------------------------------------------------------
 def corr_check(chk, drv, rng, N):
@@ -400,7 +510,8 @@ def corr_check(chk, drv, rng, N):
         if res is not None:
             kw["resample"] = float(res[1]) if res[0] == "step" else (np.array([float(v) for v in res[1]]) if rng.random() < 0.7
                                                                          else [float(v) for v in res[1]])
-        inp = dict(kind="check", times=[[str(v) for v in t] for t in times], dtg=dtgs, twin=None if twin is None else [str(v) for v in twin],
+        inp = dict(kind="check", family=fam, times=[[str(v) for v in t] for t in times], dtg=dtgs,
+                   twin=None if twin is None else [str(v) for v in twin],
                    resample=None if res is None else [res[0], str(res[1]) if res[0] == "step" else [str(v) for v in res[1]]])
         chk.count("check")
         chk.dist("check:%s twin=%d res=%s dtg=%s" % (fam, twin is not None, "-" if res is None else res[0],
@@ -419,7 +530,8 @@ def corr_check(chk, drv, rng, N):
             chk.disagree("check", inp, out, im)
         if im.startswith("ok") and len(chk.samples) < 2:
             chk.sample(dict(stream="check", input=inp, reply=im))
-        # the public face of the same decision
+        # the public face of the same decision; partial theorem, measured side: on a common lattice (or identical arrays) a
+        # positive answer means that the (windowed) time arrays are equal
         if res is None and all(d is None for d in dtgs) and im.startswith("ok"):
             db = TsDB()
             for i, t in enumerate(times):
@@ -429,15 +541,8 @@ def corr_check(chk, drv, rng, N):
             chk.count("is_common_time")
             if ("common=1" in out) != bool(ic):
                 chk.disagree("is_common_time", inp, out, bool(ic))
-            # partial theorem, measured side: on a common lattice (or identical arrays) a positive answer means that the
-            # (windowed) time arrays are equal
-            if fam in ("ident", "lattice") and ic:
-                w = [np.array([float(v) for v in t]) for t in times]
-                if twin is not None:
-                    w = [a[(a >= kw["twin"][0]) & (a <= kw["twin"][1])] for a in w]
-                if not all(np.array_equal(a, w[0]) for a in w):
-                    chk.fail("is_common_time(twin) is True only if the windowed time arrays of lattice series are equal", inp,
-                             "equal windowed arrays", [a.tolist() for a in w])
+            for oracle, expected, observed in clause_is_common(inp)[1]:
+                chk.fail(oracle, inp, expected, observed)
 
 
 def corr_cct(chk, drv, rng, N):
@@ -456,7 +561,7 @@ def corr_cct(chk, drv, rng, N):
         for i, t in enumerate(times):
             tf = np.array([float(v) for v in t])
             db.add(TimeSeries("s%d" % i, tf, tf * 0.0))
-        inp = dict(kind="cct", times=[[str(v) for v in t] for t in times], twin=None if twin is None else [str(v) for v in twin])
+        inp = dict(kind="cct", family=fam, times=[[str(v) for v in t] for t in times], twin=None if twin is None else [str(v) for v in twin])
         chk.count("cct")
         chk.dist("cct:%s twin=%d" % (fam, twin is not None))
         chk.nontriv(("cct", repr(inp)))
@@ -474,10 +579,8 @@ def corr_cct(chk, drv, rng, N):
         if len(mt) != len(im[1]) or not np.allclose(mt, im[1], rtol=1e-12, atol=1e-12):
             chk.disagree("cct", inp, mt[:12], im[1][:12].tolist())
         # clause: the common time array lies inside every series' span (so that resampling never extrapolates)
-        if len(im[1]) and fam != "ident":
-            cs, ce = max(float(t[0]) for t in times), min(float(t[-1]) for t in times)
-            if im[1][0] < cs - 1e-12 or im[1][-1] > ce + 1e-12:
-                chk.fail("create_common_time stays inside [latest start, earliest end]", inp, [cs, ce], [im[1][0], im[1][-1]])
+        for oracle, expected, observed in clause_cct(inp, im[1]):
+            chk.fail(oracle, inp, expected, observed)
 
 
 NAME_POOL = ["a", "b", "x", "Tension [kN]", "Moment [kNm]", "vel[m/s]", "acc [m/s^2]", "Acc(1)", "m_1-2.5", "Force", "force_2", "p[0]",
@@ -519,18 +622,11 @@ def corr_names(chk, drv, rng, N):
         chk.count("names")
         chk.dist("names:base=%d n=%d" % (base, min(len(keys), 4)))
         chk.nontriv(("names", repr(inp)))
-        try:
-            r = db._make_export_friendly_names(OrderedDict((k, None) for k in keys), keep_basename=base)
-            im = "ok " + hxlist(list(r.keys()))
-            got = list(r.keys())
-        except Exception as e:
-            im = "err " + err_kind(e)
-            got = None
+        got, im, fails = clause_names(inp)
         if out.strip() != im.strip():
             chk.disagree("names", inp, out if not out.startswith("ok") else unhxlist(out[3:].strip()), got if got is not None else im)
-        # clause: no series is lost and the new names are distinct
-        if got is not None and (len(got) != len(keys) or len(set(got)) != len(got)):
-            chk.fail("export-friendly names are distinct and as many as the selected series", inp, len(keys), got)
+        for oracle, expected, observed in fails:
+            chk.fail(oracle, inp, expected, observed)
         if got is not None and len(chk.samples) < 4 and not base and len(keys) > 2:
             chk.sample(dict(stream="names", keys=keys, friendly=got))
 
@@ -571,53 +667,22 @@ def corr_export(chk, drv, rng, N, root):
         meta.append((keys, dtgs, times, xs, twin, res, stages, flags, fam, ci))
     outs = drv.run(lines)
     for (keys, dtgs, times, xs, twin, res, stages, flags, fam, ci), out in zip(meta, outs):
-        db = TsDB()
-        for k, d, t, x in zip(keys, dtgs, times, xs):
-            ts = TimeSeries(os.path.basename(k), np.array([float(v) for v in t]), np.array([float(v) for v in x]), dtg_ref=dtg_of(d))
-            db.register[k] = ts
-            db.register_parent[k] = None
-            db.register_indices[k] = None
-            db.register_keys.append(k)
-        kw = {}
-        if twin is not None:
-            kw["twin"] = (float(twin[0]), float(twin[1]))
-        if res is not None:
-            kw["resample"] = float(res[1]) if res[0] == "step" else np.array([float(v) for v in res[1]])
-        if stages[0]:
-            kw["taperfrac"] = 0.1
-        if stages[1]:
-            kw["filterargs"] = ("lp", 0.01)
-        if stages[2]:
-            kw["window_len"] = 3
-        d = os.path.join(root, "tr%05d" % ci)
-        os.makedirs(d)
-        sub = os.path.join(d, "new") if flags["mkdir"] else d
-        target = os.path.join(sub, "out." + ("csv" if flags["ext"] == "other" else flags["ext"]))
-        if flags["exists"]:
-            open(target, "w").write("sentinel")
         inp = dict(kind="trace", keys=keys, dtg=dtgs, times=[[str(v) for v in t] for t in times], x=[[str(v) for v in x] for x in xs],
                    twin=None if twin is None else [str(v) for v in twin],
                    resample=None if res is None else [res[0], str(res[1]) if res[0] == "step" else [str(v) for v in res[1]]],
                    stages=list(stages), flags=flags)
         chk.count("export-trace")
         chk.nontriv(("trace", repr(inp)))
-        with Tags(), Tracer() as trc:
-            try:
-                quiet(db.export, target, exist_ok=flags["existok"], basename=flags["base"], force_common_time=flags["force"], **kw)
-            except Exception as e:
-                trc.trace.append("raise:" + err_kind(e))
-            itrace = list(trc.trace)
+        itrace = impl_trace(inp, os.path.join(root, "tr%05d" % ci))
         mt = parse_model_trace(out) if out.startswith("ok") else [out]
         last = itrace[-1] if itrace else ""
         chk.dist("trace:%s %s" % (fam, last if isinstance(last, str) and last.startswith("raise") else "written"))
         if not traces_equal(mt, itrace):
             chk.disagree("export-trace", inp, show_trace(mt), show_trace(itrace))
         # clauses on the observed trace: nothing touches the target before a raise; what is written has one time array
-        if isinstance(last, str) and last.startswith("raise") and any(isinstance(t, tuple) or (isinstance(t, str) and t.startswith("open")) for t in itrace):
-            chk.fail("export raises before the target is opened", inp, "no open/write before raise", show_trace(itrace))
+        for oracle, expected, observed in clause_trace(itrace):
+            chk.fail(oracle, inp, expected, observed)
         wr = [t for t in itrace if isinstance(t, tuple)]
-        if wr and not all(len(w[2]) == len(wr[0][2]) and np.allclose(w[2], wr[0][2], rtol=1e-9, atol=1e-12) for w in wr):
-            chk.fail("series handed to a writer share one time array", inp, wr[0][2].tolist(), [w[2].tolist() for w in wr])
         if len(chk.samples) < 6 and wr and len(keys) > 1:
             chk.sample(dict(stream="export-trace", input=inp, trace=show_trace(itrace)))
 
@@ -1158,7 +1223,7 @@ def run(chk):
         "exact, 8 n eps max|t|)",
         "the .dat column delimiter is white space (default tab) and the header is written (skip_header=False)"]
     chk.partial += [
-        "common_safe_twin_partial / common_safe_step_twin_partial: a positive `is_common` answer with a window implies equal windowed "
+        "common_safe_twin_partial: a positive `is_common` answer with a window (and optionally a resampling step) implies equal windowed "
         "time arrays only for series on one lattice (false off the lattice and for non-uniform series: machine-checked "
         "counterexamples); the export itself is safe for all inputs because of the final comparison (written_times_close)",
         "roundtrip_h5: the time array is reproduced only for uniformly sampled series (start + i*delta)"]
@@ -1184,26 +1249,43 @@ def run(chk):
         shutil.rmtree(root, ignore_errors=True)
     for c in corner_cases():
         run_e2e(chk, c)
-    for _ in range(2000 if chk.quick else 26000):
+    for _ in range(1600 if chk.quick else 26000):
         run_e2e(chk, gen_e2e(rng))
 
 
 def replay(rp):
     inp = rp.get("input")
-    if not isinstance(inp, dict) or inp.get("kind") != "e2e":
-        print("replay of a %s input: re-run  VERIF_SEED=%s ./check C07 %s" % ((inp or {}).get("kind"), rp.get("seed"), rp.get("tier")))
-        print(json.dumps(rp.get("broken") or rp.get("first_disagreement"), indent=1, default=str)[:3000])
-        return 1
+    kind = inp.get("kind") if isinstance(inp, dict) else None
     root = tempfile.mkdtemp(prefix="qv07r_")
     try:
-        fails, info = eval_e2e(inp, root)
+        if kind == "e2e":
+            fails, info = eval_e2e(inp, root)
+            print("case: %d series from %s -> %s, options %s, basename=%s force=%s" % (len(inp["series"]), inp["source"], inp["ext"], inp["kw"],
+                                                                                   inp["basename"], inp["force"]))
+            print("outcome:", info.get("outcome"))
+            fails = [(o, e, ob) for o, e, ob, _ in fails]
+        elif kind == "check":
+            ic, fails = clause_is_common(inp)
+            print("is_common_time(twin=%s) on %s -> %s" % (inp["twin"], inp["times"], ic))
+        elif kind == "cct":
+            fails = clause_cct(inp)
+            print("create_common_time(twin=%s) on %s" % (inp["twin"], inp["times"]))
+        elif kind == "names":
+            got, im, fails = clause_names(inp)
+            print("_make_export_friendly_names(%s, keep_basename=%s) -> %s" % (inp["keys"], inp["basename"], got if got is not None else im))
+        elif kind == "trace":
+            itrace = impl_trace(inp, os.path.join(root, "t"))
+            print("observed steps of export:", show_trace(itrace))
+            fails = clause_trace(itrace)
+        else:
+            print("no failing input stored (%s); broken: %s" % (rp.get("kind"), rp.get("broken")))
+            print("re-run:  VERIF_SEED=%s ./check C07 %s" % (rp.get("seed"), rp.get("tier")))
+            print(json.dumps(rp.get("first_disagreement"), indent=1, default=str)[:3000])
+            return 1
     finally:
         shutil.rmtree(root, ignore_errors=True)
-    print("case: %d series from %s -> %s, options %s, basename=%s force=%s" % (len(inp["series"]), inp["source"], inp["ext"], inp["kw"],
-                                                                           inp["basename"], inp["force"]))
-    print("outcome:", info.get("outcome"))
-    for oracle, expected, observed, extra in fails:
-        print("FAILS: %s\n   expected: %s\n   observed: %s %s" % (oracle, expected, observed, extra or ""))
+    for oracle, expected, observed in fails:
+        print("FAILS: %s\n   expected: %s\n   observed: %s" % (oracle, expected, observed))
     if not fails:
         print("all clauses hold for this input")
     return 1 if fails else 0
